@@ -783,6 +783,7 @@ def main(tier, seed, replay=None):
     notes, samples = [], []
     reported = set()
     runs = run_scenarios(scens)
+    log("C12: scenarios run %.0fs" % (time.time() - t0))
     all_states, per = [], []
     for si, scen in enumerate(scens):
         base, metas, note = runs[si]
@@ -802,7 +803,9 @@ def main(tier, seed, replay=None):
             notes.append("%s: the system call trace yielded no file operation (strace output not understood)" % scen["name"])
         per.append((scen, base, metas, states))
         all_states += states
+    log("C12: %d crash states prepared %.0fs" % (len(all_states), time.time() - t0))
     recs, rnote = recover_all(all_states, "all")
+    log("C12: recovered %.0fs" % (time.time() - t0))
     if rnote:
         notes.append(rnote)
     mres, mnote = run_model(exe, {s["dir"]: recs.get(s["dir"], {}) for s in all_states if s["dir"] in recs}, "all")
